@@ -123,6 +123,43 @@ def stats_exprs(root: Path):
     return out
 
 
+def fix_guards(root: Path):
+    """The statements that turned K23 / K24 / K25 from tracebacks into diagnostics (fixes c5833ef, 353eacf, bcdf6de):
+    (site, what the guard does). Removing a guard changes the list."""
+    out = []
+    rc = ast.parse((root / "models" / "context" / "_root_context.py").read_text())
+    for fn in ("visit_starred_relative_import", "visit_relative_import"):
+        node = _fn(rc, "RootContextBuilder", fn)
+        for st in node.body:
+            if isinstance(st, ast.If) and ast.unparse(st.test) == "base is None":
+                first = st.body[0]
+                what = ast.unparse(first.value.func) if isinstance(first, ast.Expr) and isinstance(first.value, ast.Call) else type(first).__name__ + ":" + ast.unparse(first)[:40]
+                out.append((f"_root_context.{fn}:if base is None", what))
+    loc = ast.parse((root / "module_locator" / "util.py").read_text())
+    node = _fn(loc, "is_in_stdlib")
+    for st in node.body:
+        if isinstance(st, ast.Try):
+            for h in st.handlers:
+                out.append(("module_locator.util.is_in_stdlib:try " + "; ".join(ast.unparse(b) for b in st.body),
+                            "except " + (ast.unparse(h.type) if h.type else "<bare>") + " -> " + "; ".join(ast.unparse(b) for b in h.body)))
+    mainpy = ast.parse((root / "__main__.py").read_text())
+    node = _fn(mainpy, "write_cache_file")
+    for st in node.body:
+        if isinstance(st, ast.Try):
+            covered = [ast.unparse(b.value.func) if isinstance(b, ast.Expr) and isinstance(b.value, ast.Call) else ast.unparse(b) for b in st.body]
+            for h in st.handlers:
+                first = h.body[0]
+                what = ast.unparse(first.value.func) if isinstance(first, ast.Expr) and isinstance(first.value, ast.Call) else ast.unparse(first)[:40]
+                out.append(("__main__.write_cache_file:try " + "; ".join(covered), "except " + (ast.unparse(h.type) if h.type else "<bare>") + " -> " + what))
+        elif not isinstance(st, ast.Expr) or not isinstance(getattr(st, "value", None), ast.Constant):
+            out.append(("__main__.write_cache_file:unguarded", ast.unparse(st)[:60]))
+    main = _fn(mainpy, "main")
+    for st in main.body:
+        if isinstance(st, ast.If) and "cache_file is not None" in ast.unparse(st.test) and any("write_cache_file" in ast.unparse(b) for b in st.body):
+            out.append(("__main__.main:cache-write", ast.unparse(st.test) + " -> " + "; ".join(ast.unparse(b.value.func) for b in st.body if isinstance(b, ast.Expr) and isinstance(b.value, ast.Call))))
+    return out
+
+
 _tables_round2 = tables
 
 
@@ -131,7 +168,11 @@ def tables():
 
     root = Path(os.path.dirname(rattr.__file__))
     rows = stats_exprs(root)
+    guards = fix_guards(root)
     return _tables_round2() + [
+        "/-- the guards of fixes c5833ef (K23), 353eacf (K24), bcdf6de (K25): (site, what it does) -/",
+        "def fixGuards : List (String × String) :=\n  [" + ",\n   ".join("(" + lstr(a) + ", " + lstr(b) + ")" for a, b in guards) + "]",
+    ] + [
         "/-- the expressions behind the numbers of `--stdout stats` (read, RattrStats assembly, show_stats, the output\n"
         "dispatch of main): (site, unparsed expression), in source order -/",
         "def statsExprs : List (String × String) :=\n  [" + ",\n   ".join("(" + lstr(a) + ", " + lstr(b) + ")" for a, b in rows) + "]",
